@@ -27,6 +27,7 @@ def items(tier):
         out.append({"kind": "pointwise", "sc": sc, "ec": ec})
         out.append({"kind": "nomutation", "sc": sc, "ec": ec, "is_sorted": True, "heavy": tier == "thorough" or (sc, ec) == ("neg", "pos")})
         out.append({"kind": "nomutation", "sc": sc, "ec": ec, "is_sorted": False, "heavy": tier == "thorough"})
+        out.append({"kind": "nomutation", "sc": sc, "ec": ec, "is_sorted": True, "heavy": False, "easy": [0, 0]})   # no easy samples: rescaling is the identity
     heavy = tier == "thorough"
     for i in range(22 if heavy else 19):
         out.append({"kind": "history2", "first": i, "heavy": heavy})
@@ -116,6 +117,24 @@ def run_thresholds(h, sc, ec, shape, metric):
 
 
 def run_pointwise(h, sc, ec):
+    # elementwise agreement with scalar calls for C-contiguous, transposed and strided argument arrays
+    for tag, mk in (("C", lambda a: a), ("T", lambda a: a.T), ("strided", lambda a: a[::-1])):
+        labels = h.np.reshape(h.array(h.ints(f"lab{tag}", 6, 0, 1)), (2, 3))
+        sc_arr, sels = _arg(h, f"sco{tag}", (2, 3))
+        T0, tels = _arg(h, f"thr{tag}", (2, 2))
+        L, Sx, T = mk(labels), mk(sc_arr), mk(T0)
+        pw = h.sa.pointwise_cm(L, Sx, T, score_class=sc, equal_class=ec)
+        h.check(f"[{tag}] pointwise_cm shape", h.shape(pw) == h.shape(Sx) + h.shape(T) + (2, 2))
+        ss, tt, ll = h.shape(Sx), h.shape(T), h.cells(L)
+        sv, tv = h.cells(Sx), h.cells(T)
+        pc = h.cells(h.np.asarray(pw).astype(int))
+        ok = []
+        for i in range(len(sv)):
+            for j in range(len(tv)):
+                one = h.cells(h.np.asarray(h.sa.pointwise_cm([ll[i]], [sv[i]], tv[j], score_class=sc, equal_class=ec)).astype(int))
+                g = pc[(i * len(tv) + j) * 4:(i * len(tv) + j) * 4 + 4]
+                ok.append(h.And([h.eq(a, b) for a, b in zip(g, one)]))
+        h.check(f"[{tag}] pointwise_cm element (i,j) = scalar call on (scores[i], threshold[j])", h.And(ok))
     for sshape, tshape in (((2,), (3,)), ((2, 1), (1, 2)), ((3,), ()), ((2,), (0,))):
         n = _nprod(sshape)
         labels = h.np.reshape(h.array(h.ints(f"l{len(sshape)}{len(tshape)}_", n, 0, 1)), sshape)
@@ -152,8 +171,8 @@ def _eqlists(h, a, b):
     return len(a) == len(b) and h.And([_same(h, x, y) for x, y in zip(a, b)])
 
 
-def run_nomutation(h, sc, ec, is_sorted, heavy):
-    S, pos, neg, pa, na = _S(h, sc, ec, is_sorted=is_sorted)
+def run_nomutation(h, sc, ec, is_sorted, heavy, easy=(1, 2)):
+    S, pos, neg, pa, na = _S(h, sc, ec, is_sorted=is_sorted, kp=easy[0], kn=easy[1])
     t, r = h.real("t"), h.real("r", float_atom=False)
     T, _ = _arg(h, "tt", (2,))
     R, _ = _arg(h, "rr", (2,), float_atom=False)
